@@ -349,13 +349,12 @@ def obs_coq(post):
         post["cache_pending"], post["socks_open"], post["sock_tasks"])
 
 
-def stage_system(ctx, rows):
-    import multiprocessing
+def stage_system(ctx, rows, pool):
     from tools.vlib import c11_system as S
     T = S.scenario_table()
     by_cls = {n: (c, k, s, st) for n, c, k, s, st in rows} if rows else {}
     seeds = range(1, (1 if ctx.quick else 3) + 1)
-    with multiprocessing.Pool(12) as pool:
+    if True:
         dry_jobs = [{"scenario": sc, "role": T[sc][3][0], "seed": seed, "dry": True} for sc in T for seed in seeds]
         dry = {}
         for res in pool.map(S.run_job, dry_jobs):
@@ -474,9 +473,11 @@ def run(ctx):
     ctx.assumptions = ["listener objects compare by identity", "task bodies do not swallow CancelledError",
                        "bootstrappers, executor threads, DNS resolution and OS-level socket release are outside the model "
                        "(observed through fakes)", "a PexCommunity started by HiddenTunnelCommunity is a separate overlay instance"]
+    import multiprocessing
     import threading
     import time as _time
     t0 = _time.time()
+    pool = multiprocessing.Pool(12)      # forked before any thread is started
     lc, lm = stage_listeners(ctx)
     tc, tmeta = stage_tasks(ctx)
     t1 = _time.time()
@@ -484,7 +485,11 @@ def run(ctx):
     th = [threading.Thread(target=eval_listeners, args=(ctx, lc, lm)), threading.Thread(target=eval_tasks, args=(ctx, tc, tmeta))]
     for t in th:
         t.start()
-    sc, sm = stage_system(ctx, rows)
+    try:
+        sc, sm = stage_system(ctx, rows, pool)
+    finally:
+        pool.terminate()
+        pool.join()
     t2 = _time.time()
     for t in th:
         t.join()
